@@ -117,12 +117,16 @@ class Built:
             elif k in ("calc", "tcalc", "wvar"):
                 cls = lsl.TransientCalc if k == "tcalc" else lsl.Calc
                 ins = [self.objs[j] for j in it["inputs"]]
+                kwmask = it.get("kw") or [False] * len(ins)
+                pos = [x for x, kw in zip(ins, kwmask) if not kw]
+                kws = {f"k{n}": x for n, (x, kw) in enumerate(zip(ins, kwmask)) if kw}
                 node = cls(
                     self._fn(i),
-                    *ins,
+                    *pos,
                     _name=(name if k != "wvar" else ""),
                     _needs_seed=bool(it.get("seed")),
                     update_on_init=it.get("update_on_init", True),
+                    **kws,
                 )
                 if k == "wvar":
                     v = lsl.Var(node, name=name)
@@ -130,9 +134,13 @@ class Built:
                 else:
                     self.objs.append(node), self.out.append(node)
                 self.cache_node.append(node if k != "tcalc" else None)
-            elif k == "dist":
+            elif k in ("dist", "tdist"):
                 ins = [self.objs[j] for j in it["inputs"]]
-                d = lsl.Dist(self._dist(i), *ins, _name=(f"x{i}" if it.get("named", True) else ""), _needs_seed=bool(it.get("seed")))
+                dcls = lsl.TransientDist if k == "tdist" else lsl.Dist
+                if it.get("kw"):
+                    d = dcls(self._dist(i), _name=(f"x{i}" if it.get("named", True) else ""), _needs_seed=bool(it.get("seed")), **{f"k{n}": x for n, x in enumerate(ins)})
+                else:
+                    d = dcls(self._dist(i), *ins, _name=(f"x{i}" if it.get("named", True) else ""), _needs_seed=bool(it.get("seed")))
                 d.per_obs = it.get("per_obs", True)
                 var = self.objs[it["var"]]
                 var.dist_node = d
@@ -142,7 +150,7 @@ class Built:
                     elif it["flag"] == "parameter":
                         var.parameter = True
                 self.dist_of[it["var"]] = i
-                self.objs.append(d), self.out.append(d), self.cache_node.append(d)
+                self.objs.append(d), self.out.append(d), self.cache_node.append(d if k == "dist" else None)
             else:
                 raise ValueError(k)
             if it.get("group"):
@@ -192,9 +200,10 @@ class Built:
     def _fn(self, i: int):
         prog = self
 
-        def f(*args, seed=None):
+        def f(*args, seed=None, **kw):
             prog.calls[("c", i)] = prog.calls.get(("c", i), 0) + 1
             prog.order.append(("c", i))
+            args = args + tuple(v for _, v in sorted(kw.items()))
             return ("c", i, args) if seed is None else ("c", i, args, seed_tuple(seed))
 
         f.__name__ = f"f{i}"
@@ -203,8 +212,8 @@ class Built:
     def _dist(self, i: int):
         prog = self
 
-        def make(*params, seed=None):
-            return StubDist(prog, i, *params, seed=seed)
+        def make(*params, seed=None, **kw):
+            return StubDist(prog, i, *(params + tuple(v for _, v in sorted(kw.items()))), seed=seed)
 
         return make
 
@@ -219,9 +228,10 @@ class Built:
             if k in ("value", "var"):
                 vals.append(inputs[i])
             elif k in ("calc", "tcalc", "wvar"):
-                args = tuple(vals[j] for j in it["inputs"])
+                kwmask = it.get("kw") or [False] * len(it["inputs"])
+                args = tuple(vals[j] for j, kw in zip(it["inputs"], kwmask) if not kw) + tuple(vals[j] for j, kw in zip(it["inputs"], kwmask) if kw)
                 vals.append(("c", i, args) if i not in seeds else ("c", i, args, seeds[i]))
-            elif k == "dist":
+            elif k in ("dist", "tdist"):
                 params = tuple(vals[j] for j in it["inputs"])
                 at = vals[it["var"]]
                 key = ("d", i, params, at) if i not in seeds else ("d", i, params, at, seeds[i])
@@ -239,7 +249,7 @@ class Built:
                 s: set[int] = set()
                 for j in it["inputs"]:
                     s |= anc[j]
-                if k == "dist":
+                if k in ("dist", "tdist"):
                     s |= anc[it["var"]]
                 anc.append(s)
         return anc
@@ -252,7 +262,7 @@ class Built:
 
 def _input_choices(p: int, vars_free: list[int], anc_ok) -> list[list[int]]:
     singles = [[a] for a in range(p)]
-    pairs = [[a, b] for a in range(p) for b in range(a, p)]
+    pairs = [[a, b] for a in range(p) for b in range(p)]  # ordered: argument order matters for traversals
     return singles + pairs
 
 
@@ -284,7 +294,7 @@ def _descends(items, i, v) -> bool:
         return True
     it = items[i]
     return any(_descends(items, j, v) for j in it.get("inputs", [])) or (
-        it["kind"] == "dist" and _descends(items, it["var"], v)
+        it["kind"] in ("dist", "tdist") and _descends(items, it["var"], v)
     )
 
 
@@ -295,12 +305,12 @@ def _extend(items, m, kinds):
     p = len(items)
     for kind in kinds:
         if kind == "dist":
-            have = {it["var"] for it in items if it["kind"] == "dist"}
+            have = {it["var"] for it in items if it["kind"] in ("dist", "tdist")}
             for v in range(p):
                 if items[v]["kind"] not in ("var", "wvar") or v in have:
                     continue
                 for a in range(p):
-                    if items[a]["kind"] == "dist":
+                    if items[a]["kind"] in ("dist", "tdist"):
                         continue  # keep dists out of dist parameters
                     if _descends(items, a, v):
                         continue
@@ -320,7 +330,7 @@ def sim_acyclic(items) -> bool:
     for i, it in enumerate(items):
         for j in it.get("inputs", []):
             succ[j].add(i)
-        if it["kind"] == "dist":
+        if it["kind"] in ("dist", "tdist"):
             succ[i].add(it["var"])
     state = {}
 
